@@ -64,6 +64,8 @@ Definition history := list snip.
 Definition gname_s (g : idx) : string := "g" ++ show_nat (idx_nat g).
 Definition fname_s (f : idx) : string := "f" ++ show_nat (idx_nat f).
 Definition cname_s (c : idx) : string := "C" ++ show_nat (idx_nat c).
+(* how a class and the type of its instances print *)
+Definition class_s (c : idx) : string := "<class " ++ cname_s c ++ ">".
 Definition mod_path (m : modk) : string :=
   match m with MGood => "good" | MThrow => "bad" | MMissing => "missing" | MSyntax => "syn" | MNest => "nest" end.
 Definition mod_alias (m : modk) : string :=
@@ -109,7 +111,7 @@ Definition render (s : snip) : string :=
   | SnFn f g => "fn " ++ fname_s f ++ "() { return " ++ gname_s g ++ " + 1; }"
   | SnCall f => "print(" ++ fname_s f ++ "());"
   | SnClass c z => "#[constructor(new)] class " ++ cname_s c ++ " { fn m(self) { return " ++ show_Z z ++ "; } }"
-  | SnUse c => "print(" ++ cname_s c ++ ".new().m());"
+  | SnUse c => "print(" ++ cname_s c ++ "); print(" ++ cname_s c ++ ".new().m()); print(type(" ++ cname_s c ++ ".new()));"
   | SnSyntax pre => (if pre then "fn h() { return 0; } " else "") ++ "var = ;"
   | SnThrow w d =>
       match d with Some (g, z) => "var " ++ gname_s g ++ " = " ++ show_Z z ++ "; " | None => "" end ++ render_where w
